@@ -96,7 +96,7 @@ impl<'de, 'a, 'res: 'de, RES: TokenResolver, F: BinaryFlavor, R: Read> MapAccess
             match unsafe { self.de.read() }.reader.next() {
                 Ok(Some(Token::Close)) => return Ok(None),
                 Ok(Some(Token::Open)) => {
-                    let _ = unsafe { self.de.read() }.reader.read();
+                    unsafe { self.de.read() }.reader.read()?;
                 }
                 Ok(Some(token)) => {
                     return seed
